@@ -61,6 +61,9 @@ static int nMutex = 0, nCond = 0;
 static FILE* ftrace = NULL; static FILE* fdec = NULL;
 static unsigned long long rng = 88172645463325252ULL;
 static int seeded = 0; static int pct = 0; static int strict = 0;
+/* PCT (probabilistic concurrency testing, Burckhardt et al.): random thread priorities, the highest-priority enabled thread
+ * runs, and at d-1 random steps the running thread drops to the lowest priority.  VSCHED_POLICY=pct VSCHED_PCT_D=<d> VSCHED_PCT_K=<k> */
+static int pctmode = 0; static int pct_d = 2; static long pct_k = 300; static int prio[64]; static long chg[8]; static int nchg = 0; static int lowprio = -1;
 static long nsteps = 0, maxsteps = MAXSTEPS_DEFAULT;
 static int inited = 0;
 static int active = 1;
@@ -82,7 +85,11 @@ static void vs_init(void) {
     if ((s = getenv("VSCHED_DECISIONS"))) fdec = fopen(s, "w");
     if ((s = getenv("VSCHED_SEED"))) { unsigned long long v = strtoull(s, 0, 10); if (v) { seeded = 1; rng ^= v * 0x9E3779B97F4A7C15ULL; rnd(); rnd(); } }
     if ((s = getenv("VSCHED_PCT"))) pct = atoi(s);
-    if ((s = getenv("VSCHED_STRICT"))) strict = atoi(s);   /* consume one schedule entry per decision even with a single option */
+    if ((s = getenv("VSCHED_STRICT"))) strict = atoi(s);
+    if ((s = getenv("VSCHED_POLICY")) && !strcmp(s, "pct")) pctmode = 1;
+    if ((s = getenv("VSCHED_PCT_D"))) pct_d = atoi(s);
+    if ((s = getenv("VSCHED_PCT_K"))) pct_k = atol(s);
+    if (pctmode) { int i; if (pct_d > 8) pct_d = 8; for (i = 0; i < pct_d - 1; i++) chg[nchg++] = 1 + (long)(rnd() % (unsigned long)pct_k); prio[0] = 1000 + (int)(rnd() % 1000); }   /* consume one schedule entry per decision even with a single option */
     if ((s = getenv("VSCHED_MAXSTEPS"))) maxsteps = atol(s);
     if ((s = getenv("VSCHED_SCHEDULE"))) {
         FILE* f = fopen(s, "r");
@@ -151,6 +158,12 @@ static int decide(int n, const int* opts, int keep, const char* kind) {
             char b[160]; snprintf(b, sizeof(b), "{\"e\":\"schedule_infeasible\",\"at\":%d,\"kind\":\"%s\",\"want\":%d}", psched - 1, kind, c.v); tlog(b);
             flushall(); _exit(44);
         }
+    } else if (seeded && pctmode && kind[0] == 'r') {
+        int best = -1;
+        for (i = 0; i < nchg; i++) if (chg[i] == nsteps && keep >= 0) prio[opts[keep]] = lowprio--;   /* priority change point */
+        for (i = 0; i < n; i++) if (best < 0 || prio[opts[i]] > prio[opts[best]]) best = i;
+        idx = best;
+        if (rnd() % 64 == 0) idx = (int)(rnd() % (unsigned)n);     /* a little fairness: busy-polling callers must not starve the workers forever */
     } else if (seeded) {
         if (keep >= 0 && pct > 0 && (int)(rnd() % 100) < pct) idx = keep; else idx = (int)(rnd() % (unsigned)n);
     } else {
@@ -224,6 +237,7 @@ int __wrap_pthread_create(pthread_t* th, const pthread_attr_t* attr, void* (*fn)
     if (nT == MAXT) { fprintf(stderr, "vsched: too many threads\n"); _exit(43); }
     c = nT++;
     T[c].used = 1; T[c].op = OP_START; T[c].fn = fn; T[c].arg = arg; sem_init(&T[c].sem, 0, 0);
+    if (pctmode) prio[c] = 1000 + (int)(rnd() % 1000);
     snprintf(b, sizeof(b), "{\"t\":%d,\"e\":\"create\",\"c\":%d}", me, c); tlog(b);
     T[me].op = OP_NONE;
     {   int rc = __real_pthread_create(&T[c].real, attr, trampoline, &T[c]);
